@@ -1,5 +1,5 @@
 #!/bin/bash
-# usage: wave_ingest.sh <ID> [w7|w8|w9]   - confirm a sub-agent delivery of the seventh, eighth or ninth wave (/tmp/<wave>-<ID>-out) in a scratch worktree and copy it to /verif/seeded/<ID>/<wave>-*
+# usage: wave_ingest.sh <ID> [w7|w8|w9|w10]   - confirm a sub-agent delivery of the seventh, eighth or ninth wave (/tmp/<wave>-<ID>-out) in a scratch worktree and copy it to /verif/seeded/<ID>/<wave>-*
 # per patch: applies cleanly, builds, unedited test suite passes with it, the demonstration fails with it and passes without it
 set -u
 export GOFLAGS=-mod=mod GOPROXY=off GOSUMDB=off GOTOOLCHAIN=local
